@@ -89,6 +89,8 @@ def run(ctx: Ctx):
     # R6.8: a proposal whose energy is not a number (degenerate single-atom move) is never accepted: the acceptance
     # rule has the positive form `E0/E1 >= 1 -> accept, else one draw`, which is False for NaN on both tests
     c09.r9_6(ctx, L, rule="R6.8")
+    from ..util import persistent_state
+    persistent_state(ctx, "R6.9", [f_ for f_ in (ctx.repo.func(q_, required=False) for q_ in ('Alignment.align_molecules', 'minimize_molecules', '_minimize_molecules', 'accept_metropolis')) if f_ is not None], "an alignment")
 
 
 def r6_2(ctx: Ctx, E: Effects, rule="R6.2"):
